@@ -42,6 +42,36 @@ type core struct {
 	cfgFail  string // non-empty: the Configure hook fails with this text
 	cfgMask  int32
 	cfgCalls int
+	// the update list the plugin method handed to the stub last, kept by the plugin, and the ids it had then:
+	// the stub must not rewrite a slice that belongs to the plugin
+	keptUpd    []*api.ContainerUpdate
+	keptUpdIDs []string
+}
+
+// updates builds the update list a method returns and keeps a reference to it.
+func (c *core) updates(tok string) []*api.ContainerUpdate {
+	u := mkUpdates(tok)
+	c.mu.Lock()
+	c.keptUpd = u
+	c.keptUpdIDs = nil
+	for _, x := range u {
+		c.keptUpdIDs = append(c.keptUpdIDs, x.ContainerId)
+	}
+	c.mu.Unlock()
+	return u
+}
+
+// keptIntact: the kept list still names the same containers in the same order ("" = yes, else a description).
+func (c *core) keptIntact() string {
+	c.mu.Lock()
+	defer c.mu.Unlock()
+	now := updatesTok(c.keptUpd)
+	was := strings.Join(c.keptUpdIDs, "+")
+	c.keptUpd, c.keptUpdIDs = nil, nil
+	if now != was {
+		return "the plugin's own update list was [" + was + "] when returned and is [" + now + "] after the call"
+	}
+	return ""
 }
 
 func (c *core) record(method string, args ...string) hres {
@@ -218,7 +248,7 @@ type mCreateContainer struct{ c *core }
 
 func (m mCreateContainer) CreateContainer(ctx context.Context, pod *api.PodSandbox, ctr *api.Container) (*api.ContainerAdjustment, []*api.ContainerUpdate, error) {
 	r := m.c.record("CreateContainer", podTok(pod), ctrTok(ctr))
-	return mkAdjust(r.Adjust), mkUpdates(r.Update), errOf(r)
+	return mkAdjust(r.Adjust), m.c.updates(r.Update), errOf(r)
 }
 
 type mStartContainer struct{ c *core }
@@ -231,14 +261,14 @@ type mUpdateContainer struct{ c *core }
 
 func (m mUpdateContainer) UpdateContainer(ctx context.Context, pod *api.PodSandbox, ctr *api.Container, res *api.LinuxResources) ([]*api.ContainerUpdate, error) {
 	r := m.c.record("UpdateContainer", podTok(pod), ctrTok(ctr), resTok(res))
-	return mkUpdates(r.Update), errOf(r)
+	return m.c.updates(r.Update), errOf(r)
 }
 
 type mStopContainer struct{ c *core }
 
 func (m mStopContainer) StopContainer(ctx context.Context, pod *api.PodSandbox, ctr *api.Container) ([]*api.ContainerUpdate, error) {
 	r := m.c.record("StopContainer", podTok(pod), ctrTok(ctr))
-	return mkUpdates(r.Update), errOf(r)
+	return m.c.updates(r.Update), errOf(r)
 }
 
 type mRemoveContainer struct{ c *core }
